@@ -28,8 +28,8 @@ func TestC13VirtualTime(t *testing.T) {
 		"books A1-A4 checked after every event; non-trivial = a request was still parked when its backend was ejected or re-admitted, a parked request ran into the handler timeout, or a cancelled-context / aborted request occurred")
 	sub.NontrivialFloor(0.40)
 	sub.Floor("books-read-with-request-parked-after-head", 0.20)
-	sub.Floor("handler-timeout-before-head", 0.08)
-	sub.Floor("handler-timeout-after-head", 0.08)
+	sub.Floor("handler-timeout-before-head", 0.05)
+	sub.Floor("handler-timeout-after-head", 0.05)
 	lab.Assume("L1: scripted RoundTripper replaces http.Transport; ErrAbortHandler recovered by the harness as net/http's server would")
 	maxLen := lab.Scale(40, 80)
 	lab.Check(t, sub, 3000, 100000, func(rt *rapid.T) {
